@@ -3,7 +3,7 @@
 # Applies a patch to a scratch copy of /repo (outside /repo and /verif), runs
 # the check for <prop> against it without touching evidence, removes the copy.
 set -u
-patch="$1"; prop="$2"; shift 2
+patch="$(realpath "$1")"; prop="$2"; shift 2
 tmp=$(mktemp -d "${TMPDIR:-/tmp}/gvc-mut-XXXXXX")
 trap 'rm -rf "$tmp"' EXIT
 rsync -a --exclude .git /repo/ "$tmp/repo/"
